@@ -337,6 +337,41 @@ fn random_session(rng: &mut Rng, pool: &[String]) -> Vec<Step> {
     s
 }
 
+/// Multi-key fan-out while ANOTHER connection keeps one shard busy: the per-shard replies then complete out of submission order.
+/// MGET / EXISTS / DEL counts / MSET must still answer like one shard (replies are reassembled by position, not by arrival).
+async fn fanout_under_load() -> Option<Found> {
+    const KEYS: usize = 32;
+    let key = |i: usize| format!("key:{}", i);
+    for n in [2usize, 4, 8] {
+        let st = ShardedActorState::with_shards(n);
+        let pairs: Vec<(String, SDS)> = (0..KEYS).map(|i| (key(i), sds(&format!("val:{}", i)))).collect();
+        st.execute(&Command::MSet(pairs)).await;
+        for round in 0..40usize {
+            let idx: Vec<usize> = (0..8).map(|j| (round * 5 + j * 3) % KEYS).collect();
+            let keys: Vec<String> = idx.iter().map(|i| key(*i)).collect();
+            let busy = b(&format!("busy:{}", round % 16));
+            let load: Vec<(Bytes, Bytes)> = (0..1500).map(|i| (busy.clone(), b(&format!("{}", i)))).collect();
+            let other = st.clone();
+            let mget = Command::MGet(keys.clone());
+            let (_, reply) = tokio::join!(other.fast_batch_set_pipeline(load), st.execute(&mget));
+            let want = RespValue::Array(Some(idx.iter().map(|i| RespValue::BulkString(Some(format!("val:{}", i).into_bytes()))).collect()));
+            if reply != want {
+                return Some(Found { input: format!("{} shards: MSET key:0..key:{} = val:i; then MGET {:?} while another connection runs a 1500-SET pipelined batch on {:?} (round {})", n, KEYS - 1, keys, String::from_utf8_lossy(&busy), round),
+                    observed: show_resp(&reply), required: format!("{} (what one shard answers: each key's own value, in request order)", show_resp(&want)) });
+            }
+            // EXISTS over the same keys under the same kind of load
+            let load2: Vec<(Bytes, Bytes)> = (0..1500).map(|i| (busy.clone(), b(&format!("{}", i)))).collect();
+            let other2 = st.clone();
+            let ex = Command::Exists(keys.clone());
+            let (_, r2) = tokio::join!(other2.fast_batch_set_pipeline(load2), st.execute(&ex));
+            if r2 != RespValue::Integer(keys.len() as i64) {
+                return Some(Found { input: format!("{} shards: EXISTS {:?} under load (round {})", n, keys, round), observed: show_resp(&r2), required: format!(":{}", keys.len()) });
+            }
+        }
+    }
+    None
+}
+
 pub fn search(_pid: &str, oid: &str, seed: u64) -> Option<Found> {
     let rt = tokio::runtime::Builder::new_current_thread().enable_all().build().ok()?;
     let witness = oid.contains("ensures#13");
@@ -344,6 +379,7 @@ pub fn search(_pid: &str, oid: &str, seed: u64) -> Option<Found> {
         if witness { return two_key_witness().await; }
         let pool = key_pool();
         if let Some(f) = cross_path(&pool).await { return Some(f); }
+        if let Some(f) = fanout_under_load().await { return Some(f); }
         if let Some(f) = differential(&structured_session(&pool), "structured session").await { return Some(f); }
         let mut rng = Rng::new(seed + 3);
         for it in 0..600u64 {
